@@ -135,6 +135,7 @@ def decode_bytes(fdp):
 
 
 FUZZ_DECODERS = {"rank": decode_bytes}
+FUZZ = ["rank"]      # clauses that get an atheris campaign in the thorough tier
 
 CLAUSES = [
     Clause("rank", population(24), check_sort, quick=3000, thorough=12000, quick_shards=4, simplify=simplify),
